@@ -288,6 +288,13 @@ def project(g, idm: IdMap, universe=()):
         out["bch"].sort(key=repr)
     if _has_placeholder(out):
         out["valid"] = None
+    # raw key sets of the container views (a key with an empty entry is normalised away above, but a rejected
+    # request or a query that creates one HAS changed a public view): only compared before/after such calls
+    raw = {"neighbors": sorted(repr(idm.b(k)) for k in nb.keys())}
+    if kind == "SCRG":
+        raw["ach"] = sorted(repr(idm.b(k)) for k in g.atom_stereo_changes.keys())
+        raw["bch"] = sorted(repr(sorted(repr(idm.b(x)) for x in k)) for k in g.bond_stereo_changes.keys())
+    out["raw"] = raw
     return out, bad
 
 
@@ -330,4 +337,4 @@ def diff(obs, exp):
     for k in ("kind", "atoms", "bonds", "ast", "bst", "ach", "bch", "comp", "valid"):
         if obs.get(k) != exp.get(k):
             return k
-    return "?"
+    return None        # only auxiliary keys ("raw") differ
